@@ -246,6 +246,7 @@ pub struct World {
     pub ghost checked: bool,                     // C17: the configuration in use has passed Config::check
     pub ghost acted: bool,                       // C17: an API other than `config generate` has run
     pub ghost out_deleted: Set<Seq<char>>,       // C19: the directories `out delete` was pointed at (as given to the OS)
+    pub ghost pointer_reads: nat,                // how often the run pointer file was read
     pub ghost shown: Seq<Seq<char>>,             // `log show`: the archives streamed to stdout, in order
     pub ghost effects: nat,
     pub ghost bind_attempts: nat,                // attempts to bind the lock address
@@ -652,7 +653,8 @@ impl fs::File {
 impl path::Path {
     // Path::try_exists: like exists, but an environmental failure is an error
     #[verifier::external_body] pub fn try_exists(&self, Tracked(w): Tracked<&mut World>) -> (r: Result<bool, std::io::Error>)
-        ensures *final(w) == *old(w) || final(w).io_faults > old(w).io_faults, final(w).fs == old(w).fs, r matches Ok(b) ==> b == old(w).fs.dom().contains(self@) && *final(w) == *old(w) { unimplemented!() }
+        ensures *final(w) == *old(w) || final(w).io_faults > old(w).io_faults, final(w).fs == old(w).fs, final(w).pointer_reads == old(w).pointer_reads, final(w).shown == old(w).shown, final(w).recorded_id == old(w).recorded_id,
+            r matches Ok(b) ==> b == old(w).fs.dom().contains(self@) && *final(w) == *old(w) { unimplemented!() }
     #[verifier::external_body] pub fn exists(&self, Tracked(w): Tracked<&mut World>) -> (r: bool)
         ensures *final(w) == *old(w), r == old(w).fs.dom().contains(self@) { unimplemented!() }
 }
@@ -810,4 +812,7 @@ pub mod zstd { pub mod stream { pub mod read {
         #[verifier::external_body] pub fn new(t: T) -> (r: Result<Decoder<T>, std::io::Error>) ensures r matches Ok(d) ==> d.decoded == zstd_dec(t.source_bytes()) { unimplemented!() }
     }
 } } }
+// serde_json::from_reader over the zstd decoder: the value the decoded bytes denote
+#[verifier::external_body] pub fn from_reader_dec<T, S>(d: &mut zstd::stream::read::Decoder<S>) -> (r: Result<T, serde_json::Error>)
+    ensures r matches Ok(v) ==> json_parse::<T>(old(d).decoded) == Some(v) { unimplemented!() }
 impl<T> ByteSource for zstd::stream::read::Decoder<T> { open spec fn source_bytes(&self) -> Seq<u8> { self.decoded } }
